@@ -172,8 +172,9 @@ def classify(ref, L, contract, observed, out):
     lines = (out or '').split('\n')
     if contract == 'c10a' and isinstance(observed, dict) and observed.get('only_image_alt_differs'):
         return 'html-renderer-drops-line-break-in-image-alt'
-    if out and sum(1 for l in lines if FENCE.match(rest_of(l))) > \
-            sum(1 for l in ref.none.split('\n') if FENCE.match(rest_of(l))):
+    fence = out and sum(1 for l in lines if FENCE.match(rest_of(l))) > \
+        sum(1 for l in ref.none.split('\n') if FENCE.match(rest_of(l)))
+    if fence and contract != 'c10c':
         return 'code-span-delimiter-at-line-start-becomes-fence'
     if contract == 'c10c':
         # wrapping is switched off where the child budget is exactly 0: the same lines are
@@ -184,6 +185,8 @@ def classify(ref, L, contract, observed, out):
             nxt = set()
         if not (set(observed['lines_over_limit']) & nxt):
             return 'child-budget-zero-disables-wrap'
+        if fence:
+            return 'code-span-delimiter-at-line-start-becomes-fence'
         return 'line-over-limit-with-breakable-blank'
     return 'unclassified'
 
